@@ -119,15 +119,59 @@ func dispatchCBOR(a *model.Claims, b []byte) (psatoken.IClaims, error) {
 	return psatoken.DecodeClaimsFromCBOR(b)
 }
 
+// returnedBytes remembers byte slices the library returned (the slice itself,
+// not a copy, plus a private copy) and re-checks them after further library
+// calls were made: an encoder that hands out a pooled / reused buffer passes an
+// immediate round trip but corrupts what the caller still holds.
+type returnedBytes struct {
+	prop  string
+	items []retained
+}
+
+type retained struct {
+	got  []byte
+	copy []byte
+	what string
+	sig  string
+	obs  *model.Obs
+}
+
+func (r *returnedBytes) add(c *mon.Ctx, got []byte, what, sig string, o *model.Obs, decode func([]byte) (psatoken.IClaims, error)) {
+	r.items = append(r.items, retained{got: got, copy: append([]byte{}, got...), what: what, sig: sig, obs: o})
+	if len(r.items) <= 6 {
+		return
+	}
+	it := r.items[0]
+	r.items = r.items[1:]
+	c.Count("returned-bytes-rechecked")
+	if !bytes.Equal(it.got, it.copy) {
+		c.Violation(r.prop+"/returned-bytes-changed-later/"+it.what, "bytes returned by "+it.what+" changed after further calls into the library (the caller's copy of an encoding is not stable)",
+			map[string]any{"sig": it.sig, "returned_then": mon.Hex(it.copy), "same_slice_now": mon.Hex(it.got)})
+		return
+	}
+	if decode != nil && it.obs != nil {
+		y, err := decode(it.got)
+		if err != nil {
+			c.Violation(r.prop+"/returned-bytes-undecodable-later/"+it.what, "an encoding decoded fine right away but not after further encodes: "+err.Error(), map[string]any{"sig": it.sig})
+			return
+		}
+		gy := obs.Observe(y)
+		if d := model.ObsDiff(it.obs, &gy); d != "" {
+			c.Violation(r.prop+"/returned-bytes-decode-differently-later/"+it.what, "an encoding held by the caller decodes to other claims after further encodes: "+d, map[string]any{"sig": it.sig})
+		}
+	}
+}
+
 // ---- C09 ----------------------------------------------------------------------------
 
 func runC09(c *mon.Ctx) {
-	c.Rule("(a) valid claims-sets of both profiles and of two registered extension profiles (all optional-claim subsets, hash sizes 32/48/64, 1-4 components, flag or list, with/without explicit P1 profile), built directly / through setters / by decoding: encode -> decode must give the same dynamic type and identical results for Validate and every getter, and encoding again must give identical bytes; (b) decodable-but-invalid and open-encoding tokens from the C04 generator: decode -> encode either fails or yields bytes that decode to the same observation. distinct_nontrivial = distinct (profile, route, optional-subset, nonce size, component count, value-class) signatures")
+	c.Rule("(a) valid claims-sets of both profiles and of two registered extension profiles (all optional-claim subsets, hash sizes 32/48/64, 1-4 components, flag or list, with/without explicit P1 profile), built directly / through setters / by decoding: encode -> decode must give the same dynamic type and identical results for Validate and every getter, and encoding again must give identical bytes; returned encodings are kept and re-checked / re-decoded after six further encodes; (b) decodable-but-invalid and open-encoding tokens from the C04 generator: decode -> encode either fails or yields bytes that decode to the same observation. distinct_nontrivial = distinct (profile, route, optional-subset, nonce size, component count, value-class) signatures")
 	if err := extprof.Register(extprof.ExtP2Name, extprof.ExtP1Name); err != nil {
 		c.Violation("harness/register", err.Error(), nil)
 		return
 	}
 	g := model.NewGen(c.Seed*9001 + int64(c.Shard))
+	held09 := &returnedBytes{prop: "C09"}
 	n := c.N(150000, 4000000)
 	for i := 0; i < n; i++ {
 		vc, ok := genValidCase(c, g, true)
@@ -173,6 +217,9 @@ func runC09(c *mon.Ctx) {
 			c.Count("valid-roundtrips")
 			c.Count("route:" + vc.route)
 			c.Count("profile:" + a.Canon)
+			if a.Canon != extprof.ExtP1Name {
+				held09.add(c, enc1, "EncodeClaimsToCBOR", vc.sig, &gx, psatoken.DecodeClaimsFromCBOR)
+			}
 		}); pn {
 			d := det()
 			d["panic"], d["frame"] = pv, fr
@@ -525,12 +572,13 @@ func jsonProblems(a *model.Claims, doc []byte, extra map[string]bool) []string {
 }
 
 func runC12(c *mon.Ctx) {
-	c.Rule("valid claims-sets of both profiles and a registered profile-2 extension (text claims drawn from non-ASCII / control / quote / HTML / U+2028 strings, negative client ids, P1 with and without explicit profile claim), built directly / by setters / by decoding: (1) EncodeClaimsToJSON -> DecodeClaimsFromJSON (dispatching) gives identical Validate + getter results and type; (2) CBOR -> claims -> JSON -> claims -> CBOR reproduces the CBOR bytes; (3) the JSON document, parsed generically, has exactly the documented member names of the claims that are set, standard base64 for byte strings, no member for an absent optional claim (incl. null), no duplicate members; also through Evidence.MarshalJSON. distinct_nontrivial = distinct (profile, route, optional-subset, nonce size, component count, text-class) signatures")
+	c.Rule("valid claims-sets of both profiles and a registered profile-2 extension (text claims drawn from non-ASCII / control / quote / HTML / U+2028 strings, negative client ids, P1 with and without explicit profile claim), built directly / by setters / by decoding: (1) EncodeClaimsToJSON -> DecodeClaimsFromJSON (dispatching) gives identical Validate + getter results and type; (2) CBOR -> claims -> JSON -> claims -> CBOR reproduces the CBOR bytes; (3) every returned JSON document is also kept by the monitor and re-checked / re-decoded after six further encodes (a caller encodes several tokens before sending them); (4) the JSON document, parsed generically, has exactly the documented member names of the claims that are set, standard base64 for byte strings, no member for an absent optional claim (incl. null), no duplicate members; also through Evidence.MarshalJSON. distinct_nontrivial = distinct (profile, route, optional-subset, nonce size, component count, text-class) signatures")
 	if err := extprof.Register(extprof.ExtP2Name); err != nil {
 		c.Violation("harness/register", err.Error(), nil)
 		return
 	}
 	g := model.NewGen(c.Seed*5003 + int64(c.Shard))
+	held12 := &returnedBytes{prop: "C12"}
 	n := c.N(150000, 4000000)
 	for i := 0; i < n; i++ {
 		vc, ok := genValidCase(c, g, false)
@@ -588,6 +636,7 @@ func runC12(c *mon.Ctx) {
 				return
 			}
 			c.Count("json-roundtrips")
+			held12.add(c, doc, "EncodeClaimsToJSON", vc.sig, &gx, psatoken.DecodeClaimsFromJSON)
 			// CBOR -> claims -> JSON -> claims -> CBOR
 			c1, err := psatoken.EncodeClaimsToCBOR(x)
 			if err != nil {
@@ -627,6 +676,7 @@ func runC12(c *mon.Ctx) {
 			c.Sample("json", map[string]any{"sig": vc.sig, "json": string(a.WireJSON())})
 		}
 	}
+	c.Floor("returned-bytes-rechecked", 1000)
 	c.Floor("json-documents:P1", 500)
 	c.Floor("json-documents:P2", 500)
 	c.Floor("json-documents:P1-no-profile-claim", 200)
